@@ -14,11 +14,11 @@ Binders
   L  large flat instances (10^2..10^3 tuples, seeded description expanded and judged by TLC, step-wise run of the
      operational layer checked against the declarative layer) stress the hash based ValueStore.
 
-Mutants (mutants/C10/*.diff; results of bin/mutant-run are recorded in mutants/C10/RESULTS.txt):
+Mutants (mutants/C10/*.diff; all seven DETECTED by the quick tier, bin/mutant-run output in mutants/C10/RESULTS.txt):
   lexical-compare          ICValueHasher::isDuplicateOf compares the lexical strings instead of the values
   keyref-innermost-only    ValueStoreCache::endElement drops the child's key tables instead of carrying them up
   second-field-ignored     ValueStore::addValue silently ignores a field that matches a second time
-  tuple-every-other-field  ICValueHasher::equals compares only every other field of a tuple
+  tuple-every-other-field  ICValueHasher::equals compares only every other field of a tuple (needs colliding tuples: binder L, shape twofield)
   union-last-member        SelectorMatcher::startElement never looks at the last member of a selector union
   hash-lexical             ICValueHasher::getHashVal hashes the lexical form (equal values land in different buckets)
   absent-key-first-node    ValueStore::endValueScope reports an absent key only once a tuple has been stored
@@ -56,9 +56,10 @@ META = dict(
 
 CONSTS = {
     "quick": dict(checks=["IdentityConstraints.quick.cfg", "IdentityConstraints.quick2.cfg"], gens=["IdentityConstraintsGen.quick.cfg", "IdentityConstraintsGen.quick2.cfg", "IdentityConstraintsGen.quick3.cfg"],
-                  large=[(40, 1, "step"), (300, 2, "decl")], nproc=4),
+                  large=[(40, 1, "step"), (300, 2, "decl"), (300, 6, "two"), (60, 7, "two-step")], nproc=4),
     "thorough": dict(checks=["IdentityConstraints.thorough.cfg", "IdentityConstraints.thorough2.cfg"], gens=["IdentityConstraintsGen.thorough.cfg"],
-                     large=[(60, 1, "step"), (120, 5, "step"), (400, 2, "decl"), (400, 3, "decl"), (1000, 4, "decl")], nproc=8),
+                     large=[(60, 1, "step"), (120, 5, "step"), (400, 2, "decl"), (400, 3, "decl"), (1000, 4, "decl"), (300, 6, "two"),
+                            (1000, 8, "two"), (1000, 9, "two"), (100, 7, "two-step")], nproc=8),
 }
 
 
@@ -86,13 +87,16 @@ def _acc(total, cnt):
         total[k] = total.get(k, 0) + v
 
 
-def _large_descr(n, seed):
+def _large_descr(n, seed, shape="keyref"):
     """Reduced description of a large instance: n keys with ids a*k+b in rotating lexical forms, references to them,
     and a few single mutations. Only numbers are chosen here; TLC expands the description into the tree and judges it."""
     rnd = random.Random(C.seed() * 7919 + seed)
     kinds = ["none", "dupkey", "dangling", "missingkey", "dupkey-lex", "valid-lexref"]
     which = kinds[seed % len(kinds)]
-    return dict(n=n, a=rnd.choice([1, 3, 7]), b=rnd.randrange(1, 50), mut=which, pos=rnd.randrange(2, n), pos2=rnd.randrange(2, n),
+    if shape == "twofield":
+        # n different two-field tuples that agree in the first field (g groups); odd seeds repeat one tuple
+        which = "dup2" if seed % 2 else "none"
+    return dict(shape=shape, g=rnd.choice([1, 2, 3]), n=n, a=rnd.choice([1, 3, 7]), b=rnd.randrange(1, 50), mut=which, pos=rnd.randrange(2, n), pos2=rnd.randrange(2, n),
                 ty=("decimal" if seed % 2 else "string"), order=rnd.choice(["keys-first", "refs-first", "mixed"]))
 
 
@@ -138,16 +142,16 @@ def run(out, tier):
     lruns = []
     tdir = tempfile.mkdtemp(prefix="c10L.", dir=os.path.join(C.BUILD, "tlc"))
     for i, (n, s, how) in enumerate(k["large"]):
-        d = _large_descr(n, s)
+        d = _large_descr(n, s, "twofield" if how.startswith("two") else "keyref")
         path = os.path.join(tdir, "large%d.json" % i)
         with open(path, "w") as f:
             json.dump(d, f)
         # "step": the operational layer runs event by event and TLC checks its verdict against the declarative layer;
         # "decl": the declarative layer alone judges the instance (the largest ones)
-        cfg = "IdentityConstraintsLarge.cfg" if how == "step" else "IdentityConstraintsLargeDecl.cfg"
+        cfg = "IdentityConstraintsLarge.cfg" if how.endswith("step") else "IdentityConstraintsLargeDecl.cfg"
         rl, cnt, p = _pipe(out, "IdentityConstraintsLarge", cfg, exe, 1, env={"C10_LARGE": path}, workers=1)
         _acc(ltotal, cnt)
-        lruns.append(dict(descr=d, how=how, tuples=2 * n, states=rl.distinct, lines=p.n, wall_s=round(rl.wall, 1)))
+        lruns.append(dict(descr=d, how=how, tuples=(n if how.startswith("two") else 2 * n), states=rl.distinct, lines=p.n, wall_s=round(rl.wall, 1)))
     import shutil
     shutil.rmtree(tdir, ignore_errors=True)
     cases = total.get("cases", 0)
